@@ -136,9 +136,20 @@ class _CoordinateKey(SortOrderKey, Locatable):
                 )
         # positions are numbers: read the text of a scheme-less file as such
         start, end = (
-            int(v) if isinstance(v, str) else v for v in (record.start, record.end)
+            self.__position(v) if isinstance(v, str) else v
+            for v in (record.start, record.end)
         )
         Locatable.__init__(self, chromosome, start, end)
+
+    @staticmethod
+    def __position(text: str) -> int:
+        """The number a position text denotes.  A text that is not a number
+        gives no key (KeyError), like a missing coordinate column: such a record
+        is neither in nor out of order."""
+        try:
+            return int(text)
+        except ValueError:
+            raise KeyError("The position '%s' is not a number" % text)
 
     def __cmp__(self, other: '_CoordinateKey') -> int:  # type: ignore[override]
 
